@@ -137,6 +137,22 @@ class BaseDocument(base.Sectionable):
             new_value = None
         self._origin_file_name = new_value
 
+    def clone(self, children=True, keep_id=False):
+        """
+        Clone this Document allowing to copy it independently. By default the id
+        of the cloned Document and of every cloned child object is set to a new uuid.
+
+        :param children: If True, also clone the child Sections recursively.
+        :param keep_id: If this attribute is set to True, the uuids of the
+                        Document and all child objects will remain unchanged.
+        :return: The cloned Document.
+        """
+        obj = super(BaseDocument, self).clone(children, keep_id)
+        if not keep_id:
+            obj.new_id()
+
+        return obj
+
     def finalize(self):
         """
         This needs to be called after the document is set up from parsing
